@@ -130,9 +130,10 @@ def build(fmt, rng, natom, present, mag):
         if "atffparams.resnums" in P:
             ff["resnums"] = np.array([1 + i // 3 for i in range(natom)]) % 9999
         if "extra.occupancies" in P:
-            ex["occupancies"] = np.array([round(0.01 * (1 + i % 99), 2) for i in range(natom)])
+            # now and then the value that fills the six columns (Layouts!Fill): it touches the z coordinate
+            ex["occupancies"] = np.array([100.0 if i % 17 == 5 else round(0.01 * (1 + i % 99), 2) for i in range(natom)])
         if "extra.bfactors" in P:
-            ex["bfactors"] = np.array([round(10.0 + 0.07 * (i % 1000), 2) for i in range(natom)])
+            ex["bfactors"] = np.array([999.99 if i % 13 == 4 else (-99.99 if i % 13 == 9 else round(10.0 + 0.07 * (i % 1000), 2)) for i in range(natom)])
         if "extra.chainids" in P:
             ex["chainids"] = np.array([["A", "B", "C"][i % 3] for i in range(natom)])
         if "extra.compound" in P:
